@@ -1,6 +1,7 @@
 import SurfProofs.Lemmas.Tokenizer
 import SurfProofs.Lemmas.Utf8Stream
 import SurfProofs.Lemmas.TokSpec
+import SurfProofs.Lemmas.TokLL
 /-!
 # C03 — decoded events do not depend on read boundaries and follow longest-match rules
 
@@ -77,6 +78,39 @@ theorem C03_tokenize_reads (A : Auto σ) (hT : A.TermOk) (chunks : List (List UI
   · rw [h1]; simp only [init]; rw [this]
   · rw [h2]; simp only [init]; rw [this]
 
+/-- The specification function satisfies the declarative statement of leftmost-longest tokenisation `LL`
+(see its definition: longest accepted prefix of the remaining input, emitted when the longer candidate
+failed or the sequence is complete; unrecognised bytes up to where the automaton got stuck, at least one;
+the rest tokenised afresh; an extendable rest stays pending). Every automaton. -/
+theorem C03_spec_leftmost_longest (A : Auto σ) (w : List UInt8) :
+    LL A w (tokenize A w).1 (tokenize A w).2 :=
+  tokenize_LL A w
+
+/-- `LL` leaves no freedom: items and pending rest are determined by the stream. -/
+theorem C03_leftmost_longest_unique (A : Auto σ) (w : List UInt8) (items items' : List (Item σ))
+    (rest rest' : List UInt8) (h : LL A w items rest) (h' : LL A w items' rest') :
+    items = items' ∧ rest = rest' := by
+  have e := LL_tokenize A w items rest h
+  have e' := LL_tokenize A w items' rest' h'
+  rw [e] at e'
+  exact ⟨congrArg Prod.fst e', congrArg Prod.snd e'⟩
+
+/-- **The property sentence.** For every automaton (whose terminal flag means "no outgoing edge") and every
+way of cutting the stream into reads: the run succeeds, nothing is left rescheduled, and the items of all
+reads in order, together with the bytes the decoder still holds, are THE leftmost-longest tokenisation of
+the concatenated stream in the declarative sense `LL`: each recognised item is the longest accepted
+prefix of the input that remained, emitted when a longer candidate failed to complete (or cannot exist),
+each unrecognised item is what could be read before getting stuck (at least one byte) when no prefix is
+accepted, the bytes after an item are interpreted afresh, items are consecutive (`LL_cover`), and the
+held-back rest is a readable, not yet complete prefix of what may follow. -/
+theorem C03_leftmost_longest (A : Auto σ) (hT : A.TermOk) (chunks : List (List UInt8)) :
+    ∃ per s, feedAll A (init A) chunks = .ok (per, s) ∧ s.resched = [] ∧
+      LL A chunks.flatten per.flatten s.buffer := by
+  obtain ⟨per, h1, h2⟩ := C03_tokenize_reads A hT chunks
+  refine ⟨per, _, h1, rfl, ?_⟩
+  rw [h2]
+  exact tokenize_LL A chunks.flatten
+
 /-- Read boundaries do not matter (every automaton, empty reads and cuts anywhere): feeding the reads
 one by one gives the same items in the same order, and the same final decoder state, as one
 `decode_into` over the concatenation. -/
@@ -137,6 +171,11 @@ theorem exA_termOk : exA.TermOk := by
   simp [exA] at h
   subst h
   simp [exA]
+
+/-- the declarative reading of the same run: `ab` is the longest accepted prefix of `abcx` … -/
+example : LL exA [97, 98, 99, 120] [.tok [97, 98] 2, .raw [99], .raw [120]] [] := by
+  have := C03_spec_leftmost_longest exA [97, 98, 99, 120]
+  simpa [tokenize, liveLen, longestAcc, complete, runA, exA] using this
 
 /-- `abcx`: the longer candidate `abcd` fails, `ab` is emitted, `c` and `x` are interpreted afresh -/
 example : decodeInto exA (init exA) [97, 98, 99, 120] =
